@@ -87,6 +87,10 @@ pub fn width_texts(max: usize) -> Vec<String> {
     out
 }
 
+fn observe_meta(s: &LeanString) -> (usize, usize) {
+    (s.len(), s.capacity())
+}
+
 fn long_text(len: usize) -> String {
     // mixed widths, exactly `len` bytes
     let unit = "ab€é😀0123456789";
@@ -407,8 +411,13 @@ pub fn c09_sweep(cx: &SweepCtx, quick: bool, threads: usize) {
     for n in INLINE + 1..=80 {
         texts_.push(long_text(n));
     }
-    for n in [100, 1000, 65536] {
+    for n in [100, 1000, 4095, 4096, 4097, 65535, 65536, 65537, 131071, 131072, 131073, 200_000, (1 << 20) + 1] {
         texts_.push(long_text(n));
+    }
+    if !quick {
+        for n in [(1 << 24) - 1, 1 << 24, (1 << 24) + 1, (1 << 25) + 3] {
+            texts_.push(long_text(n));
+        }
     }
     par_for_guarded(cx, "C09", texts_.len(), threads, |ti| {
         let t = &texts_[ti];
@@ -545,6 +554,55 @@ pub fn c12_sweep(cx: &SweepCtx, quick: bool, threads: usize) {
             }
         }
         cx.stats.sample(|| format!("len {len}: reserve/push_str/insert_str of 1..={max} bytes in 7 storage states"));
+    });
+    // growth events at large lengths: intermediate arithmetic that loses precision or overflows
+    // only shows there (lengths around 2^k and 3*2^k up to 48 MiB, odd low bits)
+    let mut big_lens: Vec<usize> = Vec::new();
+    for k in if quick { 12..=24 } else { 10..=25 } {
+        let b = 1usize << k;
+        for d in [0usize, 1, 3, 5] {
+            big_lens.push(b - 1 - d);
+            big_lens.push(b + d);
+            big_lens.push(b + b / 2 + d);
+            big_lens.push(b / 3 * 2 + d);
+        }
+    }
+    big_lens.extend([5_592_409, 11_184_814, 16_777_219, 22_369_621]);
+    let filler = long_text(big_lens.iter().copied().max().unwrap() + 64);
+    par_for_guarded(cx, "C12", big_lens.len(), threads.min(8), |bi| {
+        let len = big_lens[bi];
+        for which in 0..3u8 {
+            shim::with(|s| s.reset());
+            let mut s = LeanString::with_capacity(len);
+            s.push_str(&filler[..filler.floor_char_boundary(len)]);
+            while s.len() < len {
+                s.push('z');
+            }
+            let shared = if which == 2 { Some(s.clone()) } else { None };
+            let a = observe_meta(&s);
+            cx.count();
+            match which {
+                0 => s.reserve(1),
+                _ => s.push('q'),
+            }
+            let cap = s.capacity();
+            let (alen, acap) = a;
+            let mut out = Vec::new();
+            if alen + 1 > acap || shared.is_some() {
+                let lo = alen + alen / 2;
+                let hi = lo.max(alen + 1);
+                if alen + 1 > acap && cap < lo {
+                    out.push(Viol { prop: "C12", oracle: "too-small", detail: format!("len {alen} cap {acap}: new capacity {cap} < len + len/2 = {lo}") });
+                }
+                if alen + 1 > acap && cap > hi {
+                    out.push(Viol { prop: "C12", oracle: "too-big", detail: format!("len {alen} cap {acap}: new capacity {cap} > max(len + len/2, len + 1) = {hi}") });
+                }
+            }
+            cx.stats.class(format!("big-growth/{}", ["reserve", "push", "push-shared"][which as usize]));
+            cx.report(&out, "big-growth", ["reserve", "push", "push-shared"][which as usize], &format!("len {alen}"));
+            drop(shared);
+        }
+        cx.stats.sample(|| format!("growth at len {len} (reserve(1), push, push on a shared buffer)"));
     });
     // push loops: one char of width w until `total` bytes, every prefix observed
     let total: usize = if quick { 256 << 10 } else { 4 << 20 };
